@@ -51,6 +51,10 @@ type Unit struct {
 	cloOrd   map[*ast.FuncLit]int
 	guards   []Term
 	axioms   []Term
+	bstrDecl bool
+	bstrSeen map[string]bool
+	ghostBounded map[string]bool
+	frontier0 Term
 	notes    map[string]map[string]bool
 	assumed  map[string]bool
 	heapSort map[string]string
